@@ -16,10 +16,16 @@ CHECKS = {
          "bounds as C02; one known finding (UAX #14 opportunity inside a grapheme) listed; per-line varying widths through WrapNextLine not covered"),
  "C08": ("computeBidiOrdering on symbolic embedding levels against rule L2 of UAX #9 (every level sequence of the bounded length in one query family), and the visual order of every line produced by the wrap harness",
          "levels up to base+2 and 4/6 runs; levels >= base+2 are a known finding (the API carries only directions); trimming-run selection covered only through the wrap harness"),
+ "C07": ("the real shaping.Segmenter.Split (bidi split through x/text executed from source, script/delimiter stack, language enforcement, vertical orientation, face split) on every bounded text and sub-range, for every direction bit pattern and every font map (an uninterpreted function of rune and script hint): partition, untouched fields and per-rune uniformity decided for all of them",
+         "texts bounded (length, alphabet); the bidi algorithm itself (x/text) and the script/orientation tables are trusted; the reuse clause is checked under C13"),
+ "C09": ("every listed generated table parser of font/opentype/tables executed on an arbitrary symbolic byte string with arbitrary non-negative count arguments: no implicit panic, bounded allocation, termination within the unwinding bound, read count inside the input",
+         "decided unit by unit (table parsers in isolation with their documented non-negative count preconditions), for the parsers listed in quick_parsers.txt / thorough_parsers.txt and inputs up to the stated length; whole-font loading, the font-level glue (loadHVtmx, newCmap4, ...), containers, CFF charstrings, bitmap/SVG payloads and query-time accessors are not covered yet"),
  "C11": ("symbolic cmap values (formats 4, 6/10, 12, 13) through the real Iter/Lookup/RuneRanges, arbitrary valid RuneSets through one step of Add/Delete/Contains/includes/serialize, addRangeToPage over every byte pair, and the coverage builder over symbolic rune ranges; the solver decides agreement for every value inside the segment/page-count bounds",
          "cmaps assumed sorted/non-overlapping (OpenType requirement); cmap0, the symbol/PUA remappers, ProcessCmap's subtable selection and the script half of the coverage are not covered"),
  "C12": ("RecalculateAll/RecomputeAdvance, sideways, AddWordSpacing/AddLetterSpacing/trimStartLetterSpacing on fully symbolic glyph metrics and the real Shape over a stubbed HarfBuzz (sideways law by two Shape calls): identities decided for all metrics within the glyph-count bound",
          "metrics bounded by 2^20; HarfBuzz by contract; scale arithmetic inside HarfBuzz outside"),
+ "C13": ("history independence by comparing an object used before with a fresh one on symbolic arguments: shaping.Segmenter.Split (two inputs)",
+         "only the itemizer (shaping.Segmenter) is covered so far; shaper caches, faces, line wrapper and segmenter.Segmenter reuse are not covered yet"),
  "C15": ("symbolic execution of the real retainsBestMatches/matchStretch/matchStyle/matchWeight/filterBy* over candidate sets whose aspects are symbolic grid values (IEEE float32 terms), every request case-split; the solver decides equality with a CSS Fonts §5.2 reference for all candidate multisets of the bounded size",
          "values off the grid and larger candidate sets outside"),
  "C16": ("every deserializer of the index format (string, aspect, script/rune/lang sets, footprint, footprint list, file entry) executed on arbitrary symbolic byte strings (totality, read counts) and serialize->deserialize round trips of symbolic footprints and file entries, float aspects compared by bit pattern",
